@@ -241,14 +241,18 @@ def _save_file(
                             shard_index=shard_index,
                         ),
                     )
-                assert tensor.name is not None
-                shard_dict[tensor.name] = {
+                # Tensors are keyed by the name of the initializer value, which is what
+                # the model refers to. The tensor's own name may be unset or different,
+                # and one tensor object may back several initializers.
+                name = values_to_save[current_index].name
+                assert name is not None
+                shard_dict[name] = {
                     "dtype": _IR_DTYPE_TO_SAFETENSORS_DTYPE[tensor.dtype],
                     "shape": _get_tensor_storage_shape(tensor),
                     "data": tensor.tobytes(),
                 }
                 # Update weight_map with shard filename
-                weight_map[tensor.name] = shard_filename
+                weight_map[name] = shard_filename
                 current_offset += tensor.nbytes
                 current_index += 1
 
